@@ -178,8 +178,22 @@ func (p Proxy) ServeHTTP(w http.ResponseWriter, r *http.Request) (int, error) {
 		return true
 	}
 
+	// Every attempt must start from the request as it arrived: the
+	// director (base path, without) and the header rules rewrite outreq
+	// in place, so on a retry they would otherwise be applied on top of
+	// the previous attempt's result.
+	origURL := *outreq.URL
+	origHeader := outreq.Header
+
 	var backendErr error
-	for {
+	for attempt := 0; ; attempt++ {
+		if attempt > 0 {
+			attemptURL := origURL
+			outreq.URL = &attemptURL
+		}
+		outreq.Header = make(http.Header, len(origHeader))
+		copyHeader(outreq.Header, origHeader)
+
 		// since Select() should give us "up" hosts, keep retrying
 		// hosts until timeout (or until we get a nil host).
 		host := upstream.Select(r)
